@@ -118,7 +118,7 @@ class JobRunner(JobManagerBase):
                     logger.error("Failed to run node shutdown script %s: %s", cmd, ret2)
             elif self._config.node_teardown_command is not None:
                 start = time.time()
-                ret2 = run_command(self._config.node_teardown_script, env=env)
+                ret2 = run_command(self._config.node_teardown_command, env=env)
                 if ret2 != 0:
                     logger.error(
                         "Failed to run node shutdown script %s: %s",
